@@ -36,11 +36,25 @@ def soup(rng, vocab, n):
     return out[:n]
 
 
+# grammatical inputs the assembly cannot realise (they fail with an exception from below the parser, or come back empty), to be
+# prefixed by chains of arbitrary length: linkage onto a carbon without oxygen, two residues on one position, the anomeric oxygen used
+# twice, a position beyond the skeleton, an unknown residue, a '?' linkage
+UNASSEMBLABLE = ["Man(a1-6)Fuc", "Man(a1-4)[Gal(b1-4)]Glc", "Glc(a1-1)Glc(a1-4)Glc", "Gal(b1-9)Glc", "Man(a1-3)Unk", "Gal(b1-?)Glc", "Fuc(a1-2)Xyl5S",
+                 "Glc(a1-4)Rha6S", "Man(a1-6)6dTal", "Gal(b1-4)GlcNAc(b1-6)Fuc"]
+
+
+def unassemblable(rng):
+    k = rng.choice([0, 1, 3, 14, 14, 20, 30, 40])
+    return rng.choice(["Man(a1-4)", "Gal(b1-4)", "Glc(a1-6)"]) * k + rng.choice(UNASSEMBLABLE)
+
+
 def random_input(rng, vocab, p_bad=0.4):
     r = rng.random()
     if r > p_bad:
-        return rng.choice(GOOD)
+        return rng.choice(GOOD) if rng.random() < 0.9 else "Man(a1-4)" * rng.choice([15, 30, 60]) + rng.choice(GOOD)
     r = rng.random()
+    if r < 0.2:
+        return unassemblable(rng)
     if r < 0.45:
         return rng.choice(BAD_STR)
     if r < 0.6:
